@@ -21,6 +21,9 @@ ASSUMPTIONS = [
     'top_/bottom_ (int64) are modelled as unbounded integers (no 2^63 wrap); exactly one thread (thread 0) pushes/pops, as the class requires',
     'try_pop_into / try_steal_into (memcpy variants) and the observers empty()/size() are not modelled',
     'compare_exchange_strong is used (no spurious failure)',
+    'the model has one element representation; the harness instantiates the real class for element sizes 8/24/72/136 bytes (all must behave like the model) with a tracked element type '
+    '(std::is_trivially_copyable specialised for it in the harness); a slot access that bypasses the element\'s copy operations (e.g. memcpy) is invisible to the stray counter and is '
+    'searched for only by outcome (lockstep results, native stress: torn / duplicated / lost ids)',
 ]
 
 SITES = ['start', 'cl.push.load_bottom', 'cl.push.load_top', 'cl.push.slot_write', 'cl.push.store_bottom',
@@ -51,6 +54,9 @@ def gen_sched(r, nthr, n):
     return out[:n]
 
 
+WORDS = [1, 3, 9, 17]    # element sizes 8, 24, 72 (> one cache line), 136 (> two cache lines) bytes
+
+
 def gen_case(r, kind=None):
     cap = r.choice([1, 2, 2, 4, 4, 8])
     i0 = r.choice([0, 0, 0, -1, -2, 1, 3, 7, 5])
@@ -61,8 +67,17 @@ def gen_case(r, kind=None):
         tag[0] += 1
         return ('U', tag[0])
     oprog = []
-    kind = kind or r.choice(['race', 'race', 'mixed', 'full', 'mixed'])
-    if kind == 'race':      # few elements, pops and steals collide on the last one
+    kind = kind or r.choice(['race', 'race', 'mixed', 'full', 'mixed', 'fullsteal'])
+    if kind == 'fullsteal':   # full deque, thieves steal while the owner keeps pushing (wraps onto the slot just stolen)
+        cap = r.choice([1, 1, 2, 2, 4])
+        for _ in range(cap):
+            oprog.append(push())
+        for _ in range(r.randint(2, 4)):
+            oprog.append(push())
+        nth = r.choice([1, 1, 2])
+    if kind == 'fullsteal':
+        pass
+    elif kind == 'race':      # few elements, pops and steals collide on the last one
         for _ in range(r.randint(1, 2)):
             oprog.append(push())
         for _ in range(r.randint(1, 3)):
@@ -76,36 +91,58 @@ def gen_case(r, kind=None):
         for _ in range(r.randint(2, 6)):
             x = r.random()
             oprog.append(push() if x < 0.5 else (('O',) if x < 0.9 else ('T',)))
-    oprog = oprog[:6]
+    oprog = oprog[:8 if kind == 'fullsteal' else 6]
     tprogs = [[('T',)] * r.randint(1, 3) for _ in range(nth)]
     budget = 8 + 7 * len(oprog) + sum(4 * len(p) + 1 for p in tprogs)
-    sched = gen_sched(r, nth + 1, budget + 4)
-    return {'cap': cap, 'i0': i0, 'budget': budget, 'oprog': oprog, 'tprogs': tprogs, 'sched': sched}
+    if kind == 'fullsteal' and r.random() < 0.7:
+        # owner fills the deque alone, then: a few thief steps, an owner burst (one or two push attempts), and so on
+        sched = [0] * (1 + 4 * cap)
+        while len(sched) < budget + 4:
+            sched += [r.randrange(1, nth + 1)] * r.choice([1, 1, 2, 3, 4]) + [0] * r.choice([2, 4, 4, 6, 8])
+        sched = sched[:budget + 4]
+    else:
+        sched = gen_sched(r, nth + 1, budget + 4)
+    return {'cap': cap, 'i0': i0, 'budget': budget, 'w': r.choice(WORDS), 'oprog': oprog, 'tprogs': tprogs, 'sched': sched}
+
+
+def probe_cases():
+    """deterministic family: the deque is full, one thief steals, the owner starts push attempts right after the thief's j-th step
+    (j = 1..4: after load_top / load_bottom / slot_read / cas_top) and keeps pushing; every capacity 1/2/4 x every element size"""
+    out = []
+    for cap in (1, 2, 4):
+        for w in WORDS:
+            for j in (1, 2, 3, 4):
+                oprog = [('U', k + 1) for k in range(cap + 3)]
+                fill = [0] * (1 + 4 * cap)               # start + cap pushes
+                sched = fill + [1] + [1] * j + [0] * 8 + [1] * 4 + [0] * 8 + [1] * 4 + [0] * 40
+                budget = 8 + 7 * len(oprog) + 9
+                out.append({'cap': cap, 'i0': 0, 'budget': budget, 'w': w, 'oprog': oprog, 'tprogs': [[('T',), ('T',)]], 'sched': sched[:budget + 4]})
+    return out
 
 
 def line_of(c):
-    return '%d %d %d ; %s ; S %s' % (c['cap'], c['i0'], c['budget'],
+    return '%d %d %d %d ; %s ; S %s' % (c['cap'], c['i0'], c['budget'], c.get('w', 1),
                                     ' ; '.join(' '.join(op_txt(o) for o in p) for p in [c['oprog']] + c['tprogs']),
                                     ' '.join(map(str, c['sched'])))
 
 
 def term_of(c, p):
     nthr = 1 + len(c['tprogs'])
-    m = re.search(r'top (-?\d+) bot (-?\d+) rem(.*)', p['extra'])
-    top, bot = int(m.group(1)), int(m.group(2))
-    rem = [int(x) for x in m.group(3).split()]
+    m = re.search(r'top (-?\d+) bot (-?\d+) stray (\d+) rem(.*)', p['extra'])
+    top, bot, stray = int(m.group(1)), int(m.group(2)), int(m.group(3))
+    rem = [int(x) for x in m.group(4).split()]
     res = dv.coq_list([ls_common.zpairs(p['results'].get(t, [])) for t in range(nthr)])
-    return '(CC %s %s %d%%nat %s %s %s %s %s %s %s %s %d)' % (
+    return '(CC %s %s %d%%nat %s %s %s %s %s %s %s %s %d %d)' % (
         dv.zlit(c['cap']), dv.zlit(c['i0']), c['budget'],
         dv.coq_list([op_coq(o) for o in c['oprog']]),
         dv.coq_list([dv.coq_list([op_coq(o) for o in pr]) for pr in c['tprogs']]),
         dv.coq_list([str(x) for x in c['sched']]),
-        ls_common.zpairs(p['steps']), res, dv.zlit(top), dv.zlit(bot), dv.coq_list([dv.zlit(x) for x in rem]), p['status'])
+        ls_common.zpairs(p['steps']), res, dv.zlit(top), dv.zlit(bot), dv.coq_list([dv.zlit(x) for x in rem]), stray, p['status'])
 
 
 # the two outcomes of the last-element race (Properties_C36.v C36_last_element_race_*), replayed on the real code on every run
-RACE_A = {'cap': 4, 'i0': 0, 'budget': 40, 'oprog': [('U', 7), ('O',)], 'tprogs': [[('T',)]], 'sched': [0] * 10 + [1] * 5 + [0] * 30}
-RACE_B = {'cap': 4, 'i0': 0, 'budget': 40, 'oprog': [('U', 7), ('O',)], 'tprogs': [[('T',)]], 'sched': [0] * 5 + [1] * 4 + [0] * 6 + [0] * 30}
+RACE_A = {'cap': 4, 'i0': 0, 'budget': 40, 'w': 1, 'oprog': [('U', 7), ('O',)], 'tprogs': [[('T',)]], 'sched': [0] * 10 + [1] * 5 + [0] * 30}
+RACE_B = {'cap': 4, 'i0': 0, 'budget': 40, 'w': 17, 'oprog': [('U', 7), ('O',)], 'tprogs': [[('T',)]], 'sched': [0] * 5 + [1] * 4 + [0] * 6 + [0] * 30}
 
 
 def run(ctx):
@@ -113,8 +150,30 @@ def run(ctx):
     exe = dv.build_harness('h_chaselev', ['h_chaselev.cpp'], need_lib=False)
     ctx.phase('build')
     r = ctx.rng
-    n = 360 if ctx.quick else 12000
-    cases = [RACE_A, RACE_B] + [gen_case(r) for _ in range(n)]
+    # native (unscheduled) stress: one-sided search for a concrete witness of a lost / duplicated / torn element, per element size
+    ms = 250 if ctx.quick else 2500
+    stress = ['stress %d %d %d %d' % (cap, w, nthv, ms) for (cap, w, nthv) in
+              [(1, 17, 2), (2, 17, 3), (4, 17, 2), (1, 9, 3), (2, 9, 2), (4, 9, 3), (1, 3, 2), (2, 1, 3), (4, 1, 2)]]
+    souts = ls_common.run_cases(exe, stress, jobs=3)
+    st_tot = {'pushed': 0, 'torn': 0, 'dup': 0, 'lost': 0, 'unknown': 0}
+    for l, o in zip(stress, souts):
+        m = re.match(r'stress cap (\d+) w (\d+) thieves (\d+) pushed (\d+) returned (\d+) torn (\d+) dup (\d+) lost (\d+) unknown (\d+) firstdup (\d+) firstlost (\d+)', o or '')
+        if not m:
+            ctx.broken.append('native stress output unreadable for %s: %s' % (l, (o or '')[:200]))
+            continue
+        g = [int(x) for x in m.groups()]
+        for k, v in zip(('pushed', 'torn', 'dup', 'lost', 'unknown'), (g[3], g[5], g[6], g[7], g[8])):
+            st_tot[k] += v
+        if g[5] or g[6] or g[7] or g[8]:
+            ctx.violation('ChaseLevDeque native stress (unique ids, owner keeps the deque full, %d thieves, capacity %d, %d-byte elements): of %d pushed ids %d were returned twice '
+                          '(e.g. id %d), %d never (e.g. id %d), %d payloads torn, %d unknown ids' % (g[2], g[0], 8 * g[1], g[3], g[6], g[9], g[7], g[10], g[5], g[8]),
+                          {'case': l, 'output': o, 'cmd': 'echo "%s" | build/harness/h_chaselev-*   (unscheduled threads: repeat a few times)' % l})
+    ctx.cov['native_stress'] = dict(st_tot, configs=len(stress), ms_each=ms)
+    ctx.cov['evaluations'] += len(stress)
+    ctx.phase('stress')
+    n = 300 if ctx.quick else 12000
+    probes = probe_cases()
+    cases = [RACE_A, RACE_B] + probes + [gen_case(r) for _ in range(n)]
     outs = ls_common.run_cases(exe, [line_of(c) for c in cases])
     terms, kept = [], []
     distinct = set()
@@ -137,8 +196,10 @@ def run(ctx):
         races['steal_cas_lost_or_empty'] += sum(1 for t in p['results'] for (g, v) in p['results'][t] if g == 6)
     ctx.cov['evaluations'] += len(cases)
     ctx.cov['distinct_nontrivial'] += len(distinct)
-    ctx.cov['rule'] = ('generated owner programs (<= 6 push/pop/steal ops, distinct tags; families: last-element race, run-into-capacity, mixed) x 1-3 thieves (1-3 steals each) x '
-                       'capacity in {1,2,4,8} x start index in {-2..7} x bursty/uniform schedules, one fork per case under vsched; '
+    ctx.cov['rule'] = ('generated owner programs (<= 8 push/pop/steal ops, distinct tags; families: last-element race, run-into-capacity, mixed, full deque with steals while the owner keeps pushing) '
+                       'x 1-3 thieves (1-3 steals each) x capacity in {1,2,4,8} x element size in {8,24,72,136} bytes (tracked payload: id in every word) x start index in {-2..7} x bursty/uniform '
+                       'schedules, plus the deterministic probe family (full deque, thief steals, owner pushes after the thief\'s j-th step; caps 1/2/4 x 4 sizes x j=1..4), one fork per case under vsched; '
+                       'plus 9 native stress runs (not counted as distinct); '
                        'non-trivial = at least one element was delivered by pop/steal and the trace has more than (#thieves + 6) steps; distinct = distinct (trace, results, final state) strings')
     verdicts = ls_common.judge_parallel(ctx, 'From DV Require Import Base.Sched Model.ChaseLevModel Model.C36Check.', 'judge_cl', terms)
     if verdicts is None:
@@ -148,7 +209,11 @@ def run(ctx):
     for v, (c, p, o) in zip(verdicts, kept):
         hist[v] = hist.get(v, 0) + 1
         if v == 2:
-            ctx.violation('ChaseLevDeque delivery violated on the real code (an element returned twice / lost / more than capacity): %s -> %s' % (line_of(c)[:200], o[:400]),
+            msx = re.search(r'stray (\d+)', p['extra'])
+            nstray = int(msx.group(1)) if msx else 0
+            what = ('%d payload access(es) of a slot not immediately preceded by the matching hook point (a slot read/write that is not its own scheduled step, e.g. a copy after the CAS)' % nstray
+                    if nstray else 'an element returned twice / lost / torn / more than capacity')
+            ctx.violation('ChaseLevDeque delivery violated on the real code (%s): %s -> %s' % (what, line_of(c)[:200], o[:400]),
                           {'case': line_of(c), 'output': o, 'cmd': 'echo "<case>" | build/harness/h_chaselev-*'})
         elif v == 1:
             ctx.broken.append('correspondence L(C36): real trace/results differ from the model on ' + line_of(c)[:200] + ' -> ' + o[:300])
@@ -162,6 +227,8 @@ def run(ctx):
     ctx.cov['verdict_histogram'] = {'agree': hist.get(0, 0), 'differ_property_holds': hist.get(1, 0), 'delivery_violated': hist.get(2, 0)}
     ctx.cov['traces_validated_against_impl'] += hist.get(0, 0)
     ctx.cov['race_histogram'] = races
+    ctx.cov['probe_cases'] = len(probes)
+    ctx.cov['element_words_histogram'] = {str(w): sum(1 for c, _, _ in kept if c.get('w', 1) == w) for w in WORDS}
     ctx.cov['status_histogram'] = {k: sum(1 for _, p, _ in kept if p['status'] == v) for k, v in (('done', 0), ('deadlock', 1), ('budget', 2))}
     ctx.sample({'case': line_of(cases[0])[:120], 'impl': outs[0][:400]})
     ctx.sample({'case': line_of(cases[1])[:120], 'impl': outs[1][:400]})
